@@ -471,13 +471,61 @@ def g_match(m):
         m["base"], m["offset"], m["length"], m["key"], gbytes(bytes.fromhex(m["data"])))
 
 
+def g_matches(ms):
+    """runs of >= 4 matches that differ only in their offset are printed as `rep_matches …` (CliCase.v)"""
+    parts, i = [], 0
+    while i < len(ms):
+        key = (ms[i]["base"], ms[i]["length"], ms[i]["key"], ms[i]["data"])
+        j = i
+        while j < len(ms) and (ms[j]["base"], ms[j]["length"], ms[j]["key"], ms[j]["data"]) == key:
+            j += 1
+        if j - i >= 4:
+            parts.append("rep_matches %d %d %d %s %s" % (key[0], key[1], key[2], gbytes(bytes.fromhex(key[3])),
+                                                         glist([gN(m["offset"]) for m in ms[i:j]])))
+        else:
+            parts.append(glist([g_match(m) for m in ms[i:j]]))
+        i = j
+    if not parts:
+        return "[]"
+    return parts[0] if len(parts) == 1 else "(" + " ++ ".join(parts) + ")"
+
+
+def front_code(lines):
+    """stdout lines coded against the previous line: (shared prefix, middle, shared suffix) — `unfront` in CliCase.v"""
+    out, prev = [], b""
+    for ln in lines:
+        p = 0
+        m = min(len(ln), len(prev))
+        while p < m and ln[p] == prev[p]:
+            p += 1
+        sfx = 0
+        while sfx < m - p and ln[len(ln) - 1 - sfx] == prev[len(prev) - 1 - sfx]:
+            sfx += 1
+        out.append((p, ln[p:len(ln) - sfx], sfx))
+        prev = ln
+    # the decoder, mirrored: refuse to emit a coding that does not give the lines back
+    chk, prev = [], b""
+    for p, mid, sfx in out:
+        ln = prev[:p] + mid + (prev[len(prev) - sfx:] if sfx else b"")
+        chk.append(ln)
+        prev = ln
+    assert chk == list(lines)
+    return "(unfront %s)" % glist(["(%d, %s, %d)" % (p, gbytes(mid), sfx) for p, mid, sfx in out])
+
+
+def g_lines(lines):
+    plain = glist([gbytes(l) for l in lines])
+    if len(plain) < 4000:
+        return plain
+    return front_code(lines)
+
+
 def g_strings(strings, tbl=None, keep=True):
     """match lists of one rule; `tbl` interns equal lists (events and results carry the same data);
     keep=False: the invocation prints no string matches, neither model nor spec looks at them"""
     if not keep:
         return "[]"
-    txt = glist(["(%s, %s)" % (gbytes(bytes.fromhex(s["name"])), glist([g_match(m) for m in s["matches"]]))
-                 for s in strings])
+    txt = glist(["(%s, %s)" % (gbytes(bytes.fromhex(s["name"])), g_matches(s["matches"])) for s in strings])
     if tbl is None or len(txt) < 40:
         return txt
     if txt not in tbl:
@@ -654,6 +702,54 @@ class C18(Prop):
         return {"rule_files": rf, "decls": decls, "root": root, "tree": tree, "ext": ext, "inv": inv,
                 "extra_files": extra, "defines": defines}
 
+    def gen_big(self, rng, size):
+        """large events: one rule with hundreds of matches per file, printed with -s/-L/-X, a directory scanned by
+        several workers.  size 0: > 8 KiB per event; 1: > 16 KiB; 2: > 64 KiB (the buffer sizes of std's LineWriter /
+        BufWriter and of a pipe).  What C18_interleaving says — one event, one uninterrupted block — seen from outside."""
+        unit = rng.choice([b"ab", b"ab", b"abc", b"hello "])
+        nfiles = rng.range(3, 7)
+        tree = []
+        for i in range(nfiles):
+            reps = rng.choice([1000, 1300, 2000]) if i < nfiles - 1 else rng.choice([450, 1000])
+            body = unit * reps + rng.bytes(rng.range(0, 9), FILLER)
+            tree.append({"k": "file", "name": FILE_NAMES[i], "hex": hx(body)})
+        for i in range(rng.range(1, 4)):          # and a few ordinary files in between
+            tree.append(dict({"k": "file", "name": "small%d" % i}, **gen_content(rng)))
+        tree = rng.shuffle(tree)
+        if size == 2:
+            strdecl = '$b = /%s.{70}/s' % unit.decode().strip()
+        else:
+            strdecl = rng.choice(['$b = "%s"' % unit.decode(), '$b = { %s }' % " ".join("%02X" % c for c in unit)])
+        text = ("rule many_matches : t1 {\n  meta:\n    n = 1\n  strings:\n    %s\n  condition:\n    #b > 2\n}\n"
+                "rule other { strings: $x = \"hello\" condition: $x or filesize > 0 }\n" % strdecl)
+        rf = [{"ns": None, "name": "rules0.yar", "text": text}]
+        decls = [{"ns": "default", "name": "many_matches", "tags": ["t1"], "metas": [["n", "int", 1]], "private": False,
+                  "global": False, "strings": [["b", False]]},
+                 {"ns": "default", "name": "other", "tags": [], "metas": [], "private": False, "global": False,
+                  "strings": [["x", False]]}]
+        f = {k: False for k in "sLXmgecn"}
+        f.update({"l": None, "i": None, "t": None, "w": rng.choice(["print", "ignore"]), "timeout": None, "chunk": None,
+                  "maxfetch": None, "mode": None})
+        if size == 0:
+            show = rng.choice(["L", "s", "X", "sL"])
+            f["mml"] = rng.choice([0, 1, 2])
+        elif size == 1:
+            show = rng.choice(["sL", "sX", "LX", "sLX"])
+            f["mml"] = rng.choice([2, 4, 8])
+        else:
+            show = rng.choice(["s", "sL"])
+            f["mml"] = rng.choice([None, 72, 100])
+        for k in show:
+            f[k] = True
+        f["smax"] = rng.choice([None, None, 1000, 2000 if size < 2 else None])
+        f["g"] = rng.chance(1, 3)
+        f["e"] = rng.chance(1, 3)
+        inv = {"mode": rng.choice(["scan", "scan", "yr", "load"]), "flags": f,
+               "threads": rng.choice([2, 2, 3, 4, 8, 16, None]), "no_mmap": rng.chance(1, 3), "recursive": rng.chance(1, 2),
+               "no_follow": False, "skip_larger": None, "target": {"kind": "dir"}, "big": size}
+        inv["argv_flags"] = argv_flags(rng.fork("argv"), inv)
+        return {"rule_files": rf, "decls": decls, "root": "t", "tree": tree, "ext": [], "inv": inv}
+
     def gen_probe(self, rng):
         """controlled schedule: a scan list of named pipes, --no-mmap, n workers; the driver picks the completion order"""
         for k in range(20):
@@ -716,7 +812,9 @@ class C18(Prop):
                 cases.append(self.gen_case(r.fork("k%d" % k), (rf, decls, root, tree, ext)))
             if i % 2 == 0:
                 cases.append(self.gen_probe(r.fork("probe")))
-        return self.gen_specials(rng.fork("specials")) + cases[:n]
+        # large events: at least one of each size class, one more per 80 cases
+        big = [self.gen_big(rng.fork("big%d" % k), k % 3) for k in range(max(3, n // 80))]
+        return self.gen_specials(rng.fork("specials")) + big + cases[:n]
 
     def budget(self, tier):
         return 240 if tier == "quick" else 2400
@@ -1064,6 +1162,21 @@ class C18(Prop):
                 ctx.count("special=" + case["special"])
                 continue
             inv = case["inv"]
+            if "big" in inv:
+                try:
+                    ctx.count("large-events")
+                    mx = max([len(e["rule"]["strings"][0]["matches"]) for fe in lib["files"] for e in fe["events"]
+                              if e["ev"] == "rule" and e["rule"]["strings"]] or [0])
+                    ctx.count("large-events-max-matches-per-event>=%d" % (1000 if mx >= 1000 else 400 if mx >= 400 else 0))
+                    mlines = [len(l) + 1 for l in bytes.fromhex(r["cli"]["stdout"]).split(b"\n") if l.startswith(b"0x") and b"$b" in l]
+                    ev_bytes = mx * (min(mlines) if mlines else 0)
+                    ctx.count("large-events-bytes-per-event>=%s" % (
+                        "64KiB" if ev_bytes >= 65536 else "16KiB" if ev_bytes >= 16384 else "8KiB" if ev_bytes >= 8192 else "0"))
+                    ctx.count("large-events-stdout-KiB>=%d" % (
+                        512 if len(r["cli"]["stdout"]) // 2 >= 512 * 1024 else 64 if len(r["cli"]["stdout"]) // 2 >= 65536
+                        else 8 if len(r["cli"]["stdout"]) // 2 >= 8192 else 0))
+                except Exception:
+                    pass
             if "probe" in inv:
                 ctx.count("controlled-schedule")
             def kinds(nodes):
@@ -1298,10 +1411,10 @@ class C18(Prop):
         elif stdout:
             return None                    # output does not end with a newline
         err_lines = [l for l in stderr.split(b"\n") if l.startswith(self.STDERR_PREFIXES)]
-        out_exact = glist([gbytes(l) for l in out_lines])
+        out_exact = g_lines(out_lines)
         lets = "".join("let %s := %s in " % (name, txt) for txt, name in self._ms.items())
         return {"lets": lets, "out_exact": out_exact, "s": s_opts, "o": o_opts, "i": i_opts, "used": g_used, "decls": decls, "target": target,
-                "starget": starget, "tbl": glist(tbl), "out": glist([gbytes(l) for l in out_lines]),
+                "starget": starget, "tbl": glist(tbl), "out": out_exact,
                 "err": glist([gbytes(l) for l in sorted(err_lines)]), "rc": cli["rc"],
                 "out_lines": out_lines, "err_lines": sorted(err_lines)}
 
